@@ -30,7 +30,7 @@ func (f wnFinding) Key() string {
 }
 
 type WireNil struct {
-	sn *stateNil
+	sn           *stateNil
 	p            *Prog
 	root         *ssa.Function
 	reach        map[*ssa.Function]bool
